@@ -46,6 +46,62 @@ Fixpoint zip_labels (acc : list (bytes * bytes)) (keys vals : list bytes) : list
   | _, _ => acc
   end.
 
+(* ---- client_golang's acceptance rules, concretely (v1.20.4 with
+   common v0.60.0, legacy name validation): prometheus.NewDesc rejects an
+   invalid metric name, an invalid or reserved label name and duplicate label
+   names; NewConstMetric / NewConstHistogram reject a label value that is not
+   valid UTF-8.  Byte-wise: a non-ASCII byte is never part of a valid name. ---- *)
+Definition inr (lo hi b : N) : bool := N.leb lo b && N.leb b hi.
+Definition is_alpha (b : N) : bool := inr 65 90 b || inr 97 122 b.
+Definition is_digit (b : N) : bool := inr 48 57 b.
+(* model.IsValidLegacyMetricName: [a-zA-Z_:][a-zA-Z0-9_:]* *)
+Definition valid_metric_name (s : bytes) : bool :=
+  match s with
+  | [] => false
+  | b :: r => (is_alpha b || N.eqb b 95 || N.eqb b 58) &&
+              forallb (fun x => is_alpha x || N.eqb x 95 || N.eqb x 58 || is_digit x) r
+  end.
+(* checkLabelName: [a-zA-Z_][a-zA-Z0-9_]* and not starting with "__" *)
+Definition valid_label_name (s : bytes) : bool :=
+  match s with
+  | [] => false
+  | b :: r => (is_alpha b || N.eqb b 95) &&
+              forallb (fun x => is_alpha x || N.eqb x 95 || is_digit x) r &&
+              negb (match s with 95 :: 95 :: _ => true | _ => false end)
+  end.
+Fixpoint mem_bytes (x : bytes) (l : list bytes) : bool :=
+  match l with [] => false | y :: r => bytes_eqb x y || mem_bytes x r end.
+Fixpoint nodup_bytes (l : list bytes) : bool :=
+  match l with [] => true | x :: r => negb (mem_bytes x r) && nodup_bytes r end.
+(* utf8.ValidString: well-formed UTF-8 (no overlong forms, no surrogates, <= U+10FFFF) *)
+Definition cont (b : N) : bool := inr 128 191 b.
+Fixpoint valid_utf8 (s : bytes) : bool :=
+  match s with
+  | [] => true
+  | b0 :: r0 =>
+      if N.ltb b0 128 then valid_utf8 r0
+      else match r0 with
+      | [] => false
+      | b1 :: r1 =>
+          if inr 194 223 b0 then cont b1 && valid_utf8 r1
+          else match r1 with
+          | [] => false
+          | b2 :: r2 =>
+              if N.eqb b0 224 then inr 160 191 b1 && cont b2 && valid_utf8 r2
+              else if inr 225 236 b0 || inr 238 239 b0 then cont b1 && cont b2 && valid_utf8 r2
+              else if N.eqb b0 237 then inr 128 159 b1 && cont b2 && valid_utf8 r2
+              else match r2 with
+              | [] => false
+              | b3 :: r3 =>
+                  if N.eqb b0 240 then inr 144 191 b1 && cont b2 && cont b3 && valid_utf8 r3
+                  else if inr 241 243 b0 then cont b1 && cont b2 && cont b3 && valid_utf8 r3
+                  else if N.eqb b0 244 then inr 128 143 b1 && cont b2 && cont b3 && valid_utf8 r3
+                  else false
+              end
+          end
+      end
+  end.
+
 Section Prom.
 Context {F : Type} (O : fops F) (of_int : Z -> F) (fzero : F).
 
@@ -80,6 +136,15 @@ Record sample := {
 
 Definition labels_of (c : cfg) (m : metric) (ls : labelset) : list (bytes * bytes) :=
   (if omit_prog c then [] else [(str_prog, m_prog m)]) ++ zip_labels [] (m_keys m) (ls_vals ls).
+
+(* would client_golang accept the series Collect builds for (m, ls)?  The label
+   names and values are the ones Collect passes: prog first unless omitted,
+   then the entries of the label map. *)
+Definition representable (c : cfg) (m : metric) (ls : labelset) : bool :=
+  let l := labels_of c m ls in
+  valid_metric_name (no_hyphens (m_name m)) &&
+  forallb valid_label_name (map fst l) && nodup_bytes (map fst l) &&
+  forallb valid_utf8 (map snd l).
 
 (* promValueForDatum / the three histogram getters *)
 Definition value_of (k : kind) (v : dval) : sval :=
